@@ -136,7 +136,12 @@ func (c *Ctx) load(bc buildConfig) error {
 	c.Callers = map[*ssa.Function][]ssa.CallInstruction{}
 	c.ClosureSites = map[*ssa.Function][]*ssa.MakeClosure{}
 	allFns := ssautil.AllFunctions(prog)
+	renameLog := c.detectTypeRenames()
 	dead := c.normalizeHelpers(allFns)
+	if len(renameLog) > 0 {
+		l, _ := c.memo["inline.log"].([]string)
+		c.memo["inline.log"] = append(renameLog, l...)
+	}
 	if len(dead) > 0 || len(c.inlineLog()) > 0 {
 		allFns = ssautil.AllFunctions(prog)
 	}
@@ -152,6 +157,7 @@ func (c *Ctx) load(bc buildConfig) error {
 		}
 		return a.String() < b.String()
 	})
+	c.foldProved()
 	for _, f := range c.ModFns {
 		for _, b := range f.Blocks {
 			for _, in := range b.Instrs {
@@ -245,6 +251,10 @@ func (c *Ctx) fn(pkgSuffix, recv, name string) *ssa.Function {
 	if f := c.fnIn(pkgSuffix, recv, name); f != nil {
 		return f
 	}
+	// renamed: the function that took the place of the reference one
+	if f := renamedFn[modQ(pkgSuffix, recv, name)]; f != nil {
+		return f
+	}
 	// moved to another package of the module: accept a unique match elsewhere
 	var found *ssa.Function
 	n := 0
@@ -273,11 +283,14 @@ func (c *Ctx) fnIn(pkgSuffix, recv, name string) *ssa.Function {
 		return sp.Func(name)
 	}
 	ptr := strings.HasPrefix(recv, "*")
-	tn := sp.Type(strings.TrimPrefix(recv, "*"))
-	if tn == nil {
+	var t types.Type
+	if tn := sp.Type(strings.TrimPrefix(recv, "*")); tn != nil {
+		t = tn.Type()
+	} else if cur := typeFwd[sp.Pkg.Path()+"."+strings.TrimPrefix(recv, "*")]; cur != nil {
+		t = cur.Type()
+	} else {
 		return nil
 	}
-	var t types.Type = tn.Type()
 	if ptr {
 		t = types.NewPointer(t)
 	}
@@ -289,6 +302,14 @@ func (c *Ctx) methodOf(t types.Type, name string) *ssa.Function {
 	for i := 0; i < ms.Len(); i++ {
 		if ms.At(i).Obj().Name() == name {
 			return c.Prog.MethodValue(ms.At(i))
+		}
+	}
+	// a renamed method
+	for i := 0; i < ms.Len(); i++ {
+		if f := c.Prog.MethodValue(ms.At(i)); f != nil {
+			if _, renamed := renamedBack[f]; renamed && refName(f) == name {
+				return f
+			}
 		}
 	}
 	return nil
@@ -324,6 +345,12 @@ func (c *Ctx) namedTypeIn(pkgSuffix, name string) *types.Named {
 		return nil
 	}
 	o := p.Types.Scope().Lookup(name)
+	if o == nil {
+		// renamed: the type that took the place of the reference one
+		if tn := typeFwd[p.PkgPath+"."+name]; tn != nil {
+			o = tn
+		}
+	}
 	if o == nil {
 		return nil
 	}
